@@ -325,6 +325,8 @@ def oracles (prev s : St) (impl : List (String × String)) (prevDials : Nat := 0
     (if priv && get "magnet" = "ok" then ["C19 private-torrent-exported-magnet"] else []) ++
     -- metadata of a private torrent that arrived through a magnet link is refused for good: it is not kept
     (if s.cfg.isPrivate && !s.infoAtAdd && get "info" = "1" then ["C19 private-metadata-from-magnet-kept"] else []) ++
+    -- a private torrent is never announced to the DHT, with or without trackers
+    (if priv && get "dhtann" = "1" then ["C19 private-torrent-has-dht-announcer"] else []) ++
     -- the identity a torrent announces with survives a restart of the client (reload op: a second session on a
     -- copy of the resume database); a private torrent added from a .torrent file stays private
     ((commaList (get "reload")).filterMap fun e =>
